@@ -25,10 +25,14 @@ CONSTANTS
     Saves,      \* set of <<i, s>>: i may be serialized into slot s
     Restores,   \* set of <<s, j>>: slot s may be deserialized into the absent id j
     News,       \* ids that may be constructed later
-    MaxDepth    \* bound on Len(ops)
+    MaxDepth,   \* bound on the number of ops
+    KeepHistory,\* TRUE: ops/obs hold the whole behaviour; FALSE: only the last op (long scripted runs)
+    UseScript,  \* FALSE: explore freely over the alphabets; TRUE: execute exactly the ops of Script
+    Script      \* the op sequence of a scripted run (evaluated once, in Init)
 
-VARIABLES inst, blobs, ops, obs
-vars == <<inst, blobs, ops, obs>>
+VARIABLES inst, blobs, ops, obs, pos,
+          rest    \* the part of the script not yet executed
+vars == <<inst, blobs, ops, obs, pos, rest>>
 
 Absent == [kind |-> "none"]
 Present(i) == inst[i].kind # "none"
@@ -56,6 +60,15 @@ Init ==
     /\ blobs = [s \in Slots |-> Absent]
     /\ ops = [k \in 1..Cardinality(Initial) |-> NewOp(SeqOfSet(Initial)[k])]
     /\ obs = [k \in 1..Cardinality(Initial) |-> NoObs]
+    /\ pos = Cardinality(Initial)
+    /\ rest = IF UseScript THEN Script ELSE <<>>
+
+\* append to the behaviour (or keep only the last op when histories are not kept)
+Log(op, ob) ==
+    /\ ops' = IF KeepHistory THEN Append(ops, op) ELSE <<op>>
+    /\ obs' = IF KeepHistory THEN Append(obs, ob) ELSE <<ob>>
+    /\ pos' = pos + 1
+    /\ rest' = IF rest = <<>> THEN rest ELSE Tail(rest)
 
 ---------------------------------------------------------------------------
 InToOp(i, in) == IF in.ty = "s" THEN [op |-> "s", i |-> i, x |-> in.x]
@@ -71,14 +84,14 @@ Feed(i, in) ==
             \* the Minimum/Maximum cursors still move, which matters for the stale-cursor reset
             /\ inst' = [inst EXCEPT ![i].t = I.t + 1,
                                     ![i].impl = ImplStep(I.kind, I.p, I.impl, in).s]
-            /\ obs' = Append(obs, [t |-> I.t + 1, taint |-> TRUE])
+            /\ Log(InToOp(i, in), [t |-> I.t + 1, taint |-> TRUE, e |-> Eff(I.kind, in)])
        ELSE LET r == RefStep(I.kind, I.p, I.ref, in)
                 m == ImplStep(I.kind, I.p, I.impl, in)
             IN /\ inst' = [inst EXCEPT ![i].ref = r.s, ![i].impl = m.s, ![i].t = I.t + 1,
                                        ![i].ro = r.f, ![i].io = m.o]
-               /\ obs' = Append(obs, [t |-> I.t + 1, taint |-> FALSE, f |-> r.f, den |-> r.den,
-                                      dend |-> r.dend, deg |-> r.deg, lo |-> r.lo, hi |-> r.hi])
-    /\ ops' = Append(ops, InToOp(i, in))
+               /\ Log(InToOp(i, in), [t |-> I.t + 1, taint |-> FALSE, f |-> r.f, den |-> r.den,
+                                      dend |-> r.dend, deg |-> r.deg, lo |-> r.lo, hi |-> r.hi,
+                                      e |-> Eff(I.kind, in)])
     /\ UNCHANGED blobs
 
 \* next() with NaN, +-inf, +-f64::MAX, a subnormal or -0.0 (fed as a one-price bar or a scalar)
@@ -94,8 +107,7 @@ Tok(i, tok) ==
                                   \* only the comparison-based parts are modelled under non-finite input
                                   ![i].impl = IF I.kind \in {"MIN", "MAX"}
                                               THEN ImplStep(I.kind, I.p, I.impl, in).s ELSE I.impl]
-          /\ ops' = Append(ops, [op |-> "tok", i |-> i, x |-> tok])
-          /\ obs' = Append(obs, [t |-> I.t + 1, taint |-> TRUE])
+          /\ Log([op |-> "tok", i |-> i, x |-> tok], [t |-> I.t + 1, taint |-> TRUE])
     /\ UNCHANGED blobs
 
 Reset(i) ==
@@ -106,42 +118,57 @@ Reset(i) ==
                             \* code's field-by-field zeroing is what is transcribed anyway
                             ![i].impl = ImplReset(I.kind, I.impl),
                             ![i].t = 0, ![i].taint = FALSE, ![i].ro = <<>>, ![i].io = <<>>]
-    /\ ops' = Append(ops, [op |-> "reset", i |-> i])
-    /\ obs' = Append(obs, NoObs)
+    /\ Log([op |-> "reset", i |-> i], NoObs)
     /\ UNCHANGED blobs
 
 Clone(i, j) ==
     /\ Present(i) /\ ~Present(j)
     /\ CfgOf[i] = CfgOf[j]
     /\ inst' = [inst EXCEPT ![j] = inst[i]]
-    /\ ops' = Append(ops, [op |-> "clone", i |-> i, j |-> j])
-    /\ obs' = Append(obs, NoObs)
+    /\ Log([op |-> "clone", i |-> i, j |-> j], NoObs)
     /\ UNCHANGED blobs
 
 Save(i, s) ==
     /\ Present(i) /\ ~inst[i].taint
     /\ blobs' = [blobs EXCEPT ![s] = inst[i]]
-    /\ ops' = Append(ops, [op |-> "save", i |-> i, s |-> s])
-    /\ obs' = Append(obs, [t |-> inst[i].t, bound |-> SizeBound(inst[i].kind, inst[i].p)])
+    /\ Log([op |-> "save", i |-> i, s |-> s], [t |-> inst[i].t, bound |-> SizeBound(inst[i].kind, inst[i].p)])
     /\ UNCHANGED inst
 
 Restore(s, j) ==
     /\ blobs[s].kind # "none" /\ ~Present(j)
     /\ inst' = [inst EXCEPT ![j] = blobs[s]]
-    /\ ops' = Append(ops, [op |-> "restore", s |-> s, j |-> j])
-    /\ obs' = Append(obs, NoObs)
+    /\ Log([op |-> "restore", s |-> s, j |-> j], NoObs)
     /\ UNCHANGED blobs
 
 New(i) ==
     /\ ~Present(i)
     /\ inst' = [inst EXCEPT ![i] = Fresh(CfgOf[i])]
-    /\ ops' = Append(ops, NewOp(i))
-    /\ obs' = Append(obs, NoObs)
+    /\ Log(NewOp(i), NoObs)
     /\ UNCHANGED blobs
 
 Inputs == {[ty |-> "s", x |-> k] : k \in SAlpha} \cup {[ty |-> "b"] @@ b : b \in BAlpha}
 
-Next ==
+Drop(i) ==
+    /\ Present(i)
+    /\ inst' = [inst EXCEPT ![i] = Absent]
+    /\ Log([op |-> "drop", i |-> i], NoObs)
+    /\ UNCHANGED blobs
+
+\* execute one given op (scripted runs and trace validation)
+Do(o) ==
+    \/ o.op = "s" /\ Feed(o.i, [ty |-> "s", x |-> o.x])
+    \/ o.op = "b" /\ Feed(o.i, [ty |-> "b", o |-> o.o, h |-> o.h, l |-> o.l, c |-> o.c, v |-> o.v])
+    \/ o.op = "tok" /\ Tok(o.i, o.x)
+    \/ o.op = "reset" /\ Reset(o.i)
+    \/ o.op = "clone" /\ Clone(o.i, o.j)
+    \/ o.op = "save" /\ Save(o.i, o.s)
+    \/ o.op = "restore" /\ Restore(o.s, o.j)
+    \/ o.op = "new" /\ New(o.i)
+    \/ o.op = "drop" /\ Drop(o.i)
+
+Scripted == rest # <<>> /\ Do(Head(rest))
+
+Free ==
     \/ \E i \in Ids, in \in Inputs : Feed(i, in)
     \/ \E i \in Ids, tok \in Toks : Tok(i, tok)
     \/ \E i \in Resets : Reset(i)
@@ -150,20 +177,26 @@ Next ==
     \/ \E pr \in Restores : Restore(pr[1], pr[2])
     \/ \E i \in News : New(i)
 
+Next == IF UseScript THEN Scripted ELSE Free
+
 Spec == Init /\ [][Next]_vars
 
 ---------------------------------------------------------------------------
 (* exploration control *)
 NoOvf == \A i \in Ids : Present(i) => ~RefBad(inst[i].kind, inst[i].ref) /\ ~ImplBad(inst[i].kind, inst[i].impl)
-Bounded == Len(ops) <= MaxDepth
+Bounded == pos <= MaxDepth
 \* the step counter and the histories are not part of the abstract state
-view == <<[i \in Ids |-> IF Present(i) THEN [inst[i] EXCEPT !.t = 0] ELSE inst[i]],
+view == <<pos * (IF UseScript THEN 1 ELSE 0), [i \in Ids |-> IF Present(i) THEN [inst[i] EXCEPT !.t = 0] ELSE inst[i]],
           [s \in Slots |-> IF blobs[s].kind # "none" THEN [blobs[s] EXCEPT !.t = 0] ELSE blobs[s]]>>
 
 \* one replayable behaviour per explored transition
 Emit == PrintT(<<"REPLAY", ToJson([ops |-> ops', obs |-> obs'])>>)
 \* one behaviour per maximal-depth state only
-EmitLeaf == Len(ops') < MaxDepth \/ PrintT(<<"REPLAY", ToJson([ops |-> ops', obs |-> obs'])>>)
+EmitLeaf == pos' < MaxDepth \/ PrintT(<<"REPLAY", ToJson([ops |-> ops', obs |-> obs'])>>)
+\* the whole path but only the last expectation (every prefix is some other transition's behaviour)
+EmitLast == PrintT(<<"REPLAY", ToJson([ops |-> ops', obs |-> <<obs'[Len(obs')]>>, from |-> Len(ops') - 1])>>)
+\* one line per step of a scripted run (KeepHistory = FALSE): the harness reassembles the behaviour
+EmitStep == PrintT(<<"STEP", ToJson([op |-> ops'[Len(ops')], ob |-> obs'[Len(obs')]])>>)
 
 ---------------------------------------------------------------------------
 (* properties of the specification itself *)
